@@ -27,7 +27,8 @@ props = set(args.props.split(",")) if args.props else None
 def sh(cmd, **kw):
     return subprocess.run(cmd, shell=True, capture_output=True, text=True, **kw)
 
-assert sh("git -C /repo status --porcelain --untracked-files=no").stdout.strip() == "", "repo dirty"
+REPO = os.environ.get("KV_REPO", "/repo")  # the checks honour KV_REPO too, so a snapshot can be mutated in the background
+assert sh(f"git -C {REPO} status --porcelain --untracked-files=no").stdout.strip() == "", "repo dirty"
 results = []
 for mid, m in MUTANTS.items():
     if only and mid not in only:
@@ -40,7 +41,7 @@ for mid, m in MUTANTS.items():
         edits = [(m[1], m[2], m[3])]
     try:
         for f, old, new in edits:
-            path = os.path.join("/repo", f)
+            path = os.path.join(REPO, f)
             src = open(path).read()
             if src.count(old) != 1:
                 raise SystemExit(f"{mid}: pattern occurs {src.count(old)} times in {f}")
@@ -70,7 +71,7 @@ for mid, m in MUTANTS.items():
                 print(r.stderr[-800:])
             results.append((mid, p, status))
     finally:
-        sh("git -C /repo checkout -- .")
+        sh(f"git -C {REPO} checkout -- .")
 good = "QUIET" if args.benign else "CAUGHT"
 missed = [r for r in results if r[2] != good]
 print(f"{len(results) - len(missed)}/{len(results)} {good.lower()}")
